@@ -5,6 +5,7 @@ import (
 	"fmt"
 	"os"
 	"path/filepath"
+	"regexp"
 	"strings"
 	"testing"
 )
@@ -18,6 +19,17 @@ type Finding struct {
 	What     string   `json:"what"`
 	Replay   string   `json:"replay"` // path relative to /verif
 	Tags     []string `json:"tags"`   // generator exclusion tags (open entries only)
+	// Signatures attribute a failure on a generated case to this (open) finding when the
+	// generator's exclusion did not keep the construct away: every given regexp must match
+	// (msg: the failure message, wgsl: the program text).  Only failures whose message names
+	// the offending emitted construct are attributable this way; value mismatches never are.
+	Signatures []Signature `json:"signatures,omitempty"`
+}
+
+// Signature: see Finding.Signatures.
+type Signature struct {
+	Msg  string `json:"msg"`
+	WGSL string `json:"wgsl,omitempty"`
 }
 
 var (
@@ -154,4 +166,45 @@ func safeJudge(j Judge, raw json.RawMessage) (ok bool, msg string) {
 		}
 	}()
 	return j(raw)
+}
+
+var attributedOnce = map[string]bool{}
+
+// Attributed reports whether a failure (message + program text) carries the signature
+// of an open known finding; the hit is counted (class known-variant:<id>) and the finding
+// is reported as still reproducing.
+func Attributed(msg, wgsl string) (string, bool) {
+	loadFindings()
+	if os.Getenv("VERIF_NO_EXCLUDE") != "" {
+		return "", false
+	}
+	for _, f := range findings {
+		if f.Status != "open" {
+			continue
+		}
+		for _, sg := range f.Signatures {
+			if sg.Msg == "" {
+				continue
+			}
+			if ok, _ := regexp.MatchString(sg.Msg, msg); !ok {
+				continue
+			}
+			if sg.WGSL != "" {
+				if ok, _ := regexp.MatchString(sg.WGSL, wgsl); !ok {
+					continue
+				}
+			}
+			Class("known-variant:" + f.ID)
+			mu.Lock()
+			first := !attributedOnce[f.ID]
+			attributedOnce[f.ID] = true
+			mu.Unlock()
+			if first && f.Property != propID {
+				// a finding of another property seen through this check
+				Known(f.ID, f.What)
+			}
+			return f.ID, true
+		}
+	}
+	return "", false
 }
